@@ -206,6 +206,23 @@ func (c *checker) CheckFunctions(t *parser.Thrift) (warns []string, err error) {
 				err = fmt.Errorf("[IDL grammar error] %s.%s: oneway methods can't throw exceptions from file %s", svc.Name, f.Name, t.Filename)
 				return
 			}
+			// argument and throws lists are field lists: ids and names must be unique
+			for _, list := range [][]*parser.Field{f.Arguments, f.Throws} {
+				ids := make(map[int32]bool)
+				names := make(map[string]bool)
+				for _, a := range list {
+					if ids[a.ID] {
+						err = fmt.Errorf("[IDL grammar error] duplicated field ID %d in function %q.%q from file %s", a.ID, svc.Name, f.Name, t.Filename)
+						return
+					}
+					if names[a.Name] {
+						err = fmt.Errorf("[IDL grammar error] duplicated field name %q in function %q.%q from file %s", a.Name, svc.Name, f.Name, t.Filename)
+						return
+					}
+					ids[a.ID] = true
+					names[a.Name] = true
+				}
+			}
 			for _, a := range f.Arguments {
 				if a.Requiredness == parser.FieldType_Optional {
 					argOpt = t.Filename + ": optional keyword is ignored in argument lists."
